@@ -162,12 +162,6 @@ func runC16(c *Ctx) {
 				files = genFiles(srng, nfiles, 3*conf.PayloadSize)
 			}
 			faults = []fault{{Kind: []string{fRefuse, fUnavailable, fCutBefore}[srng.Intn(3)], Nth: 1 + srng.Intn(3), K: 0, Repeat: 100000}}
-			if srng.Intn(2) == 0 {
-				// ... or the outage is there from the start: the start-up recovery request
-				// ("which partial files do you hold") fails over and over, and the stop
-				// arrives before the sender has got past it
-				faults = []fault{{Kind: fPartialsErr, Nth: 1, Repeat: 100000}}
-			}
 			immediateOnly = true
 		}
 		// reference run: count boundary actions of an uninterrupted one-shot run
@@ -203,6 +197,13 @@ func runC16(c *Ctx) {
 				if immediateOnly {
 					sc.Graceful = false
 					sc.StopAt = 1 + rng.Intn(refActs+5)
+					if k%2 == 1 {
+						// ... or the outage is there from the start: the start-up recovery request
+						// ("which partial files do you hold") fails over and over, and the stop
+						// arrives before the sender has got past it
+						sc.Faults = []fault{{Kind: fPartialsErr, Nth: 1, Repeat: 100000}}
+						sc.StopAt = 1 + rng.Intn(12)
+					}
 				}
 				if hashingPhase > 0 && k >= 4 && k%2 == 0 {
 					sc.StopAt = 2 + rng.Intn(hashingPhase)
